@@ -63,8 +63,9 @@ def run(ctx):
     for i, frames in enumerate(gen(ctx.tier, rng)):
         stream = encode_frames(frames)
         for control in (0, 1):
-            sc, line, s = observe(stream, [], "rd1" if control else "rd0", len(frames) + 2, fire=i % 3 == 0)
-            pub = {"stream": stream.hex() if len(stream) < 4000 else None, "control": control, "fire": int(i % 3 == 0)}
+            trace = int(i % 4 == 1)
+            sc, line, s = observe(stream, [], "rd1" if control else "rd0", len(frames) + 2, fire=i % 3 == 0, trace=trace)
+            pub = {"stream": stream.hex() if len(stream) < 4000 else None, "control": control, "fire": int(i % 3 == 0), "trace": trace}
             np = sum(1 for f in frames if f[0] == 9)
             T.case((stream[:48], control), nontrivial=np > 0, bucket=f"pings{min(np, 5)}",
                    sample={"frames": [(f[0], f[1], len(f[2])) for f in frames][:8], "control": control})
@@ -104,7 +105,7 @@ def run(ctx):
     return T.result(
         "every ping payload length 0..125; 0-4 (6) pings inserted at every kind of position (before, between, inside "
         "fragmented messages) of random legal streams with unsolicited pongs; with and without control-frame reporting, "
-        "per-fragment mode on a third; writes compared byte for byte with the RFC encoding of the expected pongs (key "
+        "per-fragment mode on a third, trace logging on a quarter; writes compared byte for byte with the RFC encoding of the expected pongs (key "
         "from the scenario's key stream) and the interleaved transport log checked for 'pong before the next read'; whole "
         "line compared with the extracted model. non-trivial = at least one ping",
         what_is_proved="C07_pongs, C07_one_pong, C07_only_replies, C07_pong_wellformed")
@@ -127,6 +128,6 @@ def replay(ctx, sc):
     for fr in sp["frames"]:
         pass
     # rebuild (op, fin, payload) from the stream with the spec decoder's boundaries is not needed: rerun & compare counts
-    _, line, s = observe(stream, [], "rd1" if sc["control"] else "rd0", sp["n"] + 2, fire=sc.get("fire", 0))
+    _, line, s = observe(stream, [], "rd1" if sc["control"] else "rd0", sp["n"] + 2, fire=sc.get("fire", 0), trace=sc.get("trace", 0))
     writes = [x for x in line.split(";io=")[1].split(",") if x.startswith("w")]
     return None if len(writes) == len(sp["pongs"]) else {"pongs_owed": len(sp["pongs"]), "writes": len(writes)}
